@@ -793,7 +793,11 @@ func selftestDeterminism(id string) int {
 				defer wg.Done()
 				slots <- struct{}{}
 				defer func() { <-slots }()
-				b, _ := json.Marshal(workerCfg{Property: id, Engine: p.engine, Config: c.name, Seed: 777, Shard: 0, Shards: 1, Runs: 60,
+				runs := 60
+				if c.params["enumerate"] == true {
+					runs = 4 // one enumerating evaluation is thousands of re-runs
+				}
+				b, _ := json.Marshal(workerCfg{Property: id, Engine: p.engine, Config: c.name, Seed: 777, Shard: 0, Shards: 1, Runs: runs,
 					Out: filepath.Join(scratch, fmt.Sprintf("det-%s-%d.json", c.name, i)), Params: withParam(c.params, "det_digest", true), ReplayDir: scratch})
 				cmd := exec.Command(bw.bin, "-test.run", "^TestVerifWorker$", "-test.cpu", procs, "-test.count", "1", "-test.timeout", "0")
 				cmd.Dir = repoDir
